@@ -308,7 +308,7 @@ def spec_for(m, op, conflict=None, sortkey=None, _raw=False):
 # ------------------------------------------------------------------ workloads
 
 SETSLICE_SLICES = ((0, 1, None), (0, 2, None), (1, None, None), (0, 0, None), (None, None, 2), (None, None, -1))
-SETSLICE_VALS = ([], [0], [3], [1, 1], [0, 1], [1, 0], [2, 3], [3, 2, 1])
+SETSLICE_VALS = ([], [0], [3], [1, 1], [0, 1], [1, 0], [2, 3], [3, 2, 1], [1, 3], [3, 1])
 BULK_VALS = ([], [1], [1, 3], [3, 3], [0, 1], [2, 0])
 OPERANDS = ([], [1], [0, 2], [3, 1])
 
